@@ -24,6 +24,20 @@ LOOPS = {
  "maps grow and shrink": "var m = {}; for i in 0..%(N)d { m.insert(i, (i, i)); if m.len() > 10 { m.remove(i - 10); } } print(m.len());",
  "recursion": "fn depth(n) { if n == 0 { return [0]; } return [depth(n - 1)]; } var keep = nil; for i in 0..%(N)d { keep = depth(20); } print(keep.len());",
  "ranges": "var n = 0; for i in 0..%(N)d { for j in i..(i + 3) { n = j; } } print(n);",
+ # stale internal pointers must not keep garbage alive: what a FINISHED fiber leaves behind (its stack, its argument, its captured
+ # variables' former home), handled exceptions, exhausted or abandoned iterators, dropped bound methods, returned frames
+ "closures escaping finished fibers (pipeline)": "var up = nil; var t = 0; for i in 0..%(N)d { var stage = Fiber.new(|previous| { var base = i; if previous { base = base + previous() - previous(); } return || base + 1; }); up = stage.call(up); t = t + up(); } print(t > 0);",
+ "closure over a local of a finished fiber": "var keep = nil; for i in 0..%(N)d { keep = Fiber.new(|| { var w = [i]; var pad = [i, i]; return || w; }).call(); } print(keep()[0] >= 0);",
+ "closure handed from fiber to fiber": "var keep = nil; for i in 0..%(N)d { var a = Fiber.new(|| { var w = [i]; Fiber.yield(|| w); return 0; }); var g = a.call(); var b = Fiber.new(|h| { var mine = h()[0]; return || mine; }); keep = b.call(g); } print(keep() >= 0);",
+ "fiber calling a fiber": "var n = 0; for i in 0..%(N)d { var inner = Fiber.new(|x| { Fiber.yield([x]); return [x, x]; }); var outer = Fiber.new(|| { var a = inner.call(i); var b = inner.call(); return a[0] + b.len(); }); n = outer.call(); } print(n > 0);",
+ "yield from nested frames then abandoned": "fn deep(k) { if k == 0 { Fiber.yield([k]); return 0; } var pad = [k]; return deep(k - 1) + pad[0]; } var keep = nil; for i in 0..%(N)d { var f = Fiber.new(|| deep(5)); keep = f.call(); } print(keep[0]);",
+ "exceptions through finally": "var n = 0; for i in 0..%(N)d { try { try { throw (i, [i]); } finally { n = n + 1; } } catch e { n = e[0]; } try { try { [1][i + 5]; } finally { n = n + 1; } } catch e2 { n = n + 1; } } print(n > 0);",
+ "error instances": "var n = 0; for i in 0..%(N)d { try { throw Error.new([i, i]); } catch e { n = e.context[0]; } try { (i, [i]).nosuch; } catch e2 { n = n + 1; } } print(n >= 0);",
+ "abandoned iterators": "var keep = nil; for i in 0..%(N)d { var it = [[i], [i + 1], [i + 2]].iter(); it.next(); var mi = (i, i + 1).iter().map(|x| [x]); mi.next(); keep = [it, mi]; } print(keep.len());",
+ "returned frames with wide locals": "fn wide(i) { var a = [i]; var b = [i, i]; var c = (i, [i]); var d = {i: a}; var e = || a; return 0; } var n = 0; for i in 0..%(N)d { n = wide(i); } print(n);",
+ "closures returning closures": "fn mk(i) { var a = [i]; return || { var b = [a]; return || b; }; } var keep = nil; for i in 0..%(N)d { keep = mk(i)(); } print(keep().len());",
+ "bound methods of dropped instances": "#[constructor(new)] class Q { fn get(self) { return self.v; } } var keep = nil; for i in 0..%(N)d { var q = Q.new(); q.v = [i]; keep = q.get; var bn = [i].len; keep = bn; } print(keep());",
+ "temporaries above the stack top": "fn args(a, b, c, d, e, f) { return f; } var n = 0; for i in 0..%(N)d { n = args([i], [i, i], (i, [i]), {i: [i]}, [[i]], 0); var t = [[i], [i], [i], [i], [i], [i], [i], [i]][7]; } print(n);",
 }
 
 
@@ -141,7 +155,25 @@ def main(tier, seed):
             rep.violation("loop '%s' (%s build): %d iterations leave %r objects / %d bytes after a full collection, %d iterations leave %r / %d"
                           % (k, b, n, sum(live.values()), nbytes, 2 * n, sum(other[0].values()), other[1]),
                           {"program": LOOPS[k], "n": n, "live_n": live, "live_2n": other[0], "bytes": [nbytes, other[1]]})
-    rep.coverage["traces_validated_against_impl"] = nrep + ntr + nloops
+    # ---- 4. what survives a full collection is exactly what the specification says is reachable --------------------------------
+    # Machine.tla computes, for every scenario program, the set of objects still reachable when the last run has ended (Live: from the
+    # module globals, the module table and the range cache, through containers, fields, captured variables - only those a closure's code
+    # mentions -, bound methods, iterators and the frames of suspended fibers).  The harness forces a collection after the run and counts
+    # the surviving objects by kind; the counts must be equal, so garbage that is kept (C16) and reachable objects that are
+    # reclaimed (C01) both show, with the expectation coming from the specification rather than from a second run.
+    import profcheck
+    import scenarios
+    nsc = 300 if tier == "quick" else 4000
+    r2 = random.Random(seed + 16)
+    fams = [("fibers", scenarios.fiber_scenarios(r2, nsc, nfib=3)), ("classes", scenarios.class_scenarios(r2, nsc)),
+            ("iteration", scenarios.iteration_scenarios(r2, nsc)), ("capture", scenarios.capture_scenarios()[::4] + scenarios.capture_order_scenarios()),
+            ("switchcontexts", scenarios.fiber_switch_context_scenarios()), ("handlerintact", scenarios.handler_intact_scenarios()),
+            ("loopstate", scenarios.loop_state_scenarios()), ("rangecache", scenarios.range_cache_scenarios()),
+            ("thrownvalues", scenarios.thrown_value_scenarios()), ("snippets", scenarios.snippet_scenarios(r2, nsc // 2))]
+    nsc_cmp = 0
+    for name, progs in fams:
+        nsc_cmp += profcheck.run_scenarios(rep, name, progs, [("release", rel), ("dev", dev)], PROP, trace=False)
+    rep.coverage["traces_validated_against_impl"] = nrep + ntr + nloops + nsc_cmp
     rep.coverage["replayed_histories"] = nrep
     rep.coverage["programs_trace_validated"] = ntr
     rep.coverage["trace_events_validated"] = nev
